@@ -36,7 +36,12 @@ def arrays_of(obj, seen=None, depth=0):
 
 def val(m, a):
     import mici.matrices as mm
-    v = hash(m) if a == "__hash__" else getattr(m, a)
+    if "." in a:                      # compound request, e.g. "T.inv": the inverse of the (lazily built) transpose
+        v = m
+        for part in a.split("."):
+            v = getattr(v, part)
+    else:
+        v = hash(m) if a == "__hash__" else getattr(m, a)
     if isinstance(v, mm.Matrix):
         return np.asarray(v.array).copy()
     return np.asarray(v).copy()
@@ -101,12 +106,14 @@ def search(ctx):
     bad = 0
     sizes = (1, 3) if not ctx.thorough else (1, 2, 3, 4)
     for kind in matzoo.KINDS:
-        for n in sizes:
+        for n in (sizes if "lowrank" not in kind or 4 in sizes else sizes + (4,)):      # rank-2 updates (non-symmetric capacitance matrices) need n >= 4
             seed = int(rng.integers(0, 2 ** 31))
             m, d = matzoo.make_leaf(np.random.default_rng(seed), n, kind)
             cls = type(m).__name__
             attrs = [a for a in LAZY if a == "__hash__" or hasattr(type(m), a)]
             attrs = [a for a in attrs if not (a in ("eigval", "eigvec") and not isinstance(m, mm.SymmetricMatrix))]
+            if isinstance(m, mm.InvertibleMatrix) and n > 1:
+                attrs += ["T.inv", "inv.T"]       # derived objects inherit cached pieces: their values must not depend on what was cached when they were built
             # 1. lazy order: every permutation of the first accesses (capped) gives identical values
             base = None
             perms = list(itertools.islice(itertools.permutations(attrs), 24 if not ctx.thorough else 200))
@@ -127,6 +134,12 @@ def search(ctx):
                 ctx.count("search:lazy_orders")
                 if base is None:
                     base = out
+                    # the derived objects mean what they say (independently of any order): inverse of the transpose = transpose of the inverse of the dense meaning
+                    for a in ("T.inv", "inv.T"):
+                        if a in out and not np.allclose(out[a], np.linalg.inv(d).T, rtol=1e-8, atol=1e-9):
+                            bad += 1
+                            ctx.fail(f"derived_value:{cls}.{a}", f"{cls} ({kind}, n={n}): {a} differs from the dense computation by "
+                                     f"{np.abs(out[a] - np.linalg.inv(d).T).max():.2e}", {"kind": kind, "n": n, "attribute": a, "seed": seed})
                 else:
                     for a in attrs:
                         if not (base[a].shape == out[a].shape and np.allclose(base[a], out[a], rtol=1e-10, atol=1e-12)):
